@@ -9,6 +9,9 @@ C03 (document part) -- `ASTPrinter` on whole documents: print o parse is the ide
       t2 == t   (Node.__eq__: every attribute but `source`; `loc` is None on both sides)
       ASTPrinter(indent)(t2) == p
   and the same for the entry points parse_value / parse_type.
+* HISTORIES: sequences of `py_gql.lang.print_ast` / `ASTPrinter(...)` calls in ONE process with varying (indent,
+  include_descriptions) on several documents: every output equals the same call in isolation (fresh ASTPrinter, Lean
+  model) and -- descriptions on -- re-parses to the tree: printing is a function of its arguments, not of the history.
 * CORRESPONDENCE: the Lean pipeline text -> `Lex.lexAll` -> `Parse.parseDocument` -> `Print.printDocument` (driver op
   "print_parse") against `ASTPrinter(indent, include_descriptions)(parse(text))` -- exact string equality (code points),
   both values of include_descriptions.
@@ -486,11 +489,165 @@ def process(ctx, texts, all_indents=True):
     check_corr(ctx, corr)
 
 
+# ---------------------------------------------------------------------------------------------
+# HISTORIES: sequences of print calls in one process (public `py_gql.lang.print_ast` and the class `ASTPrinter`) with
+# varying (indent, include_descriptions) on several documents.  Every output must be what the SAME call gives in
+# isolation (a freshly constructed ASTPrinter; the Lean model), and -- with descriptions on -- must re-parse to the tree.
+
+HISTORY_DOCS = [
+    '"""T desc""" type T { f: Int }  "d" directive @x(a: Int = 1) on FIELD | QUERY',
+    '"s" scalar S  """\n multi\n  line\n""" enum E { A B }  """u""" union U = A | B',
+    '{ a { b(x: """blk\n  more""", y: "q") } }  fragment F on T { c }',
+    '""" lead""" input I { a: Int = 1 }  """i""" interface N { f(a: S = "x"): T }  extend type T @d',
+    'query Q($v: Int = 1) @live { a }  "x" type A  query { s }',
+    'schema { query: Q }  """d1""" type Q { a: Int }  extend schema @s',
+]
+
+
+def fresh_printer_state():
+    """re-execute py_gql.lang.printer (and the package re-export) so that module-level state starts empty"""
+    import importlib
+    import py_gql.lang.printer as P
+    import py_gql.lang as Lg
+    importlib.reload(P)
+    importlib.reload(Lg)
+
+
+def history_call(api, tree, indent, desc):
+    """('ok', text) / ('raises', cls) of one call through the named API"""
+    try:
+        if api == "print_ast":
+            import py_gql.lang as Lg
+            return ("ok", Lg.print_ast(tree, indent=indent, include_descriptions=desc))
+        if api == "print_ast_default":           # the defaults of the public entry point
+            import py_gql.lang as Lg
+            return ("ok", Lg.print_ast(tree))
+        from py_gql.lang.printer import ASTPrinter
+        return ("ok", ASTPrinter(indent=indent, include_descriptions=desc)(tree))
+    except Exception as e:  # noqa
+        return ("raises", type(e).__name__)
+
+
+def run_history(docs, calls):
+    """returns [(call, out, isolated, roundtrip_ok)] -- `isolated` = a fresh ASTPrinter with the call's own arguments"""
+    trees = []
+    for t in docs:
+        r = real_parse(t)
+        trees.append(r[1] if r[0] == "ok" else None)
+    rows = []
+    for api, di, indent, desc in calls:
+        tree = trees[di]
+        if tree is None:
+            continue
+        eff_indent, eff_desc = (2, True) if api == "print_ast_default" else (indent, desc)
+        out = history_call(api, tree, indent, desc)
+        iso = real_print(tree, eff_indent, eff_desc)
+        rt = True
+        if out[0] == "ok" and eff_desc:
+            r2 = real_parse(out[1])
+            rt = r2[0] == "ok" and (r2[1] == tree or r2[1] == strip_member_descriptions(tree))
+        rows.append(((api, di, indent, desc), out, iso, rt, (eff_indent, eff_desc)))
+    return rows
+
+
+def history_failure(rows):
+    """index and class of the first call whose output is not the isolated one / does not round-trip"""
+    for i, (call, out, iso, rt, _eff) in enumerate(rows):
+        if out[0] != "ok":
+            return i, "raises:" + out[1]
+        if not rt:
+            return i, "roundtrip-lost"
+        if out != iso:
+            return i, "output-depends-on-earlier-calls"
+    return None
+
+
+def gen_history(rng, ndocs):
+    calls = []
+    for _ in range(rng.randint(3, 9)):
+        api = rng.choice(["print_ast", "print_ast", "print_ast", "ASTPrinter", "print_ast_default"])
+        indent = rng.choice([0, 1, 2, 2, 4, 4, 8]) if api != "ASTPrinter" or rng.random() < 0.6 else rng.choice(["\t", "  \t", " "])
+        calls.append((api, rng.randrange(ndocs), indent, rng.random() < 0.6))
+    return calls
+
+
+def check_history(ctx, docs, calls, shrink=True):
+    fresh_printer_state()
+    rows = run_history(docs, calls)
+    ctx.count(len(rows))
+    ctx.stat("history")
+    ctx.stat("history-calls", len(rows))
+    bad = history_failure(rows)
+    if bad is not None:
+        cur = list(calls[: bad[0] + 1])
+        if shrink:
+            i = 0
+            while i < len(cur) - 1:                      # drop earlier calls while the last one still fails
+                cand = cur[:i] + cur[i + 1:]
+                fresh_printer_state()
+                b2 = history_failure(run_history(docs, cand))
+                if b2 is not None and b2[0] == len(cand) - 1:
+                    cur = cand
+                else:
+                    i += 1
+            fresh_printer_state()
+        rows2 = run_history(docs, cur) if shrink else rows
+        b3 = history_failure(rows2) or bad
+        api = cur[-1][0]
+        ctx.fail("history:%s:%s" % (api, b3[1]),
+                 "a print call gives another text / loses content depending on the calls made before it in the same process",
+                 {"part": PART, "kind": "history", "docs": [L.cps(d) for d in docs],
+                  "calls": [[a, di, ind if isinstance(ind, int) else L.cps(ind), de] for a, di, ind, de in cur]})
+        fresh_printer_state()
+        return
+    # model: every call equals the pure Lean printer on the same arguments
+    if ctx.model_ok:
+        reqs, keep = [], []
+        for (call, out, iso, rt, eff) in rows:
+            reqs.append({"op": "print_parse", "text": L.cps(docs[call[1]]), "indent": indent_json(eff[0]), "desc": eff[1],
+                         "entry": "document", "ts": True, "fv": True})
+            keep.append((call, out))
+        for (call, out), a in zip(keep, ctx.driver.ask(reqs)):
+            ctx.stat("history-corr")
+            if not a.get("ok") or out[0] != "ok" or L.cps(out[1]) != a.get("text"):
+                ctx.fail("corr:history:%s" % call[0], "model printer and the call inside a history differ",
+                         {"part": PART, "kind": "history", "docs": [L.cps(d) for d in docs],
+                          "calls": [[c[0], c[1], c[2] if isinstance(c[2], int) else L.cps(c[2]), c[3]] for c, _o in keep]},
+                         kind="correspondence")
+                break
+
+
+def run_histories(ctx):
+    rng = ctx.rng
+    docs = list(HISTORY_DOCS)
+    # the adversarial orders first: descriptions OFF, then ON, same indent, through each API
+    for api in ("print_ast", "ASTPrinter"):
+        for ind in (2, 4):
+            check_history(ctx, docs, [(api, 0, ind, False), (api, 0, ind, True), (api, 1, ind, True)])
+            check_history(ctx, docs, [(api, 1, ind, True), (api, 1, ind, False), (api, 3, ind, True), ("print_ast_default", 0, 2, True)])
+    check_history(ctx, docs, [("print_ast", 0, 2, False), ("print_ast_default", 0, 2, True)])
+    check_history(ctx, docs, [("print_ast", 2, 0, True), ("print_ast", 2, 8, True), ("print_ast", 2, 0, True)])
+    n = ctx.n(60, 600)
+    for i in range(n):
+        if ctx.out_of_time():
+            break
+        if i % 10 == 0:
+            extra = []
+            for _ in range(2):
+                t, _m = gen_doc_text(rng)
+                if real_parse(t)[0] == "ok" and len(t) < 1500:
+                    extra.append(t)
+            docs = list(HISTORY_DOCS) + extra
+        check_history(ctx, docs, gen_history(rng, len(docs)))
+    fresh_printer_state()
+
+
 def run(ctx):
     rng = ctx.rng
     _shrunk.clear()
     _corr_shrinks[0] = 0
     t_end = ctx.time_left()
+    run_histories(ctx)
     process(ctx, [(t, e, "corpus") for t, e in corpus_texts()])
     # whole fixtures (one pass, all indents for the small ones)
     for name, text, defs in fixture_definitions():
@@ -532,6 +689,11 @@ def replay(ctx, data):
     entry = inp.get("entry", "document")
     before = len(ctx.found)
     ctx.model_ok = ctx.driver.available()
+    if inp.get("kind") == "history":
+        docs = [L.from_cps(d) for d in inp.get("docs", [])]
+        calls = [(a, di, i2 if isinstance(i2, int) else L.from_cps(i2), bool(de)) for a, di, i2, de in inp.get("calls", [])]
+        check_history(ctx, docs, calls, shrink=False)
+        return not [f for f in ctx.found[before:] if f["kind"] == "property"]
     res = oracle(text, ind, entry)
     if res is not None:
         report_property(ctx, text, ind, entry, res)
